@@ -35,6 +35,12 @@ def spd(rng, d, kind):
     if kind == "rho":
         r = 0.9
         C = np.full((d, d), r) + (1 - r) * np.eye(d)
+    if kind == "illcond" and d > 1:
+        # principal standard deviations spanning 1e4..1e5 (condition number 1e8..1e10), randomly rotated
+        Q, _ = np.linalg.qr(rng.standard_normal((d, d)))
+        sds = np.geomspace(10 ** rng.uniform(-1.5, -0.8), 10 ** rng.uniform(-6.5, -5.0), d)
+        M = Q @ np.diag(sds ** 2) @ Q.T
+        return 0.5 * (M + M.T)
     return C * np.outer(sd, sd)
 
 
@@ -72,7 +78,7 @@ def conformance_case(seed):
     K = int(rng.integers(1, 4))
     n = int(rng.integers(3, 9))
     means = rng.uniform(0.2, 0.8, (K, d))
-    covs = np.array([spd(rng, d, str(rng.choice(["diag", "full", "rho"]))) for _ in range(K)])
+    covs = np.array([spd(rng, d, str(rng.choice(["diag", "full", "rho", "illcond"], p=[0.3, 0.3, 0.25, 0.15]))) for _ in range(K)])
     dofs = rng.choice([0.7, 2.0, 5.0, 30.0, 1e6], K)
     ms = mode_stats(means, covs, dofs)
     sigma = float(rng.uniform(0.05, 0.95)) if kernel == "tpcn" else float(rng.uniform(0.1, 2.5))
@@ -142,10 +148,16 @@ def _one_sweep(rng, r, kernel, d, n, means, covs, dofs, L, Sinv, ass, beta, bk, 
     if np.max(np.abs(ll0 - ll_cur)) > 1e-12 * (1 + np.max(np.abs(ll0))):
         return [("record-split", "the runner's logl is not the likelihood at the runner's u before the sweep")], {}
     ll1 = logl_fn(np.where(inside[:, None], props, u))
+    conds = np.array([np.linalg.cond(c) for c in covs])
     if kernel == "tpcn":
-        fac = np.array([sst.multivariate_t.logpdf(u[k], loc=means[ass[k]], shape=covs[ass[k]], df=dofs[ass[k]])
-                        - sst.multivariate_t.logpdf(props[k], loc=means[ass[k]], shape=covs[ass[k]], df=dofs[ass[k]]) if inside[k] else 0.0
-                        for k in range(n)])
+        def tfac(k):
+            a = ass[k]
+            if conds[a] < 1e6:
+                return (sst.multivariate_t.logpdf(u[k], loc=means[a], shape=covs[a], df=dofs[a])
+                        - sst.multivariate_t.logpdf(props[k], loc=means[a], shape=covs[a], df=dofs[a]))
+            from tvf.oracles import mvt_logpdf_unnorm
+            return float(mvt_logpdf_unnorm(u[k], means[a], Sinv[a], dofs[a], d) - mvt_logpdf_unnorm(props[k], means[a], Sinv[a], dofs[a], d))
+        fac = np.array([tfac(k) if inside[k] else 0.0 for k in range(n)])
     else:
         fac = np.zeros(n)
     with np.errstate(over="ignore"):
@@ -200,7 +212,8 @@ def _one_sweep(rng, r, kernel, d, n, means, covs, dofs, L, Sinv, ass, beta, bk, 
     if seen_fac:
         f = seen_fac[0]
         m = inside & np.isfinite(fac)
-        if m.any() and np.max(np.abs(f[m] - fac[m])) > 1e-8 * (1 + np.max(np.abs(fac[m]))):
+        ftol = 1e-8 * (1 + np.abs(fac)) * np.maximum(1.0, conds[ass] * 1e-8)      # Mahalanobis distances lose cond*eps
+        if m.any() and np.any(np.abs(f[m] - fac[m]) > ftol[m]):
             j = int(np.argmax(np.where(m, np.abs(f - fac), 0)))
             bad.append(("acceptance-factor", f"walker {j}: acceptance factor {f[j]!r} but log t(u) - log t(u') = {fac[j]!r}"))
     elif kernel == "tpcn":
